@@ -188,6 +188,16 @@ Run(D, K, loc, atStart, fuel) ==
                 \* "a loop ... entry costs one clock" (none when it is the very first action)
                 IF atStart THEN Run(D, <<[k |-> "head", w |-> s]>> \o K1, loc, TRUE, fuel - 1)
                 ELSE [K |-> <<[k |-> "head", w |-> s]>> \o K1, loc |-> loc]
+           [] s.k = "waitfor" ->
+                \* C16: "std.wait_for(n) and Waiter.wait_for(n) resume exactly n clock steps after they are reached
+                \*  for every n>=1, constant or run-time (n=0 only with allow_zero, resuming in the same step)"
+                LET nv == IF s.n.k = "int" THEN CInt(s.n.v) ELSE CEval(s.n, ReadEnv(loc))
+                    n == IF CIsErr(nv) THEN -1 ELSE IF nv.t = "int" THEN nv.v ELSE IF nv.t = "u" /\ Known(nv.v) THEN ToNat(nv.v) ELSE -1
+                IN IF CIsErr(nv) THEN [K |-> K, loc |-> [loc EXCEPT !.err = nv.v]]
+                   ELSE IF n < 0 THEN [K |-> K, loc |-> [loc EXCEPT !.err = "undefined"]]
+                   ELSE IF n = 0 THEN (IF s.allow_zero = 1 THEN Run(D, K1, loc, FALSE, fuel - 1)
+                                       ELSE [K |-> K, loc |-> [loc EXCEPT !.err = "undefined"]])   \* precondition violated
+                   ELSE [K |-> <<[k |-> "wait", left |-> n]>> \o K1, loc |-> loc]
            [] s.k = "break" ->      \* "continue/break/return cost none"
                 LET p == PopToLoop(K1) IN
                 IF ~p.found THEN [K |-> K, loc |-> [loc EXCEPT !.err = "reject:break outside loop"]]
@@ -213,6 +223,9 @@ Run(D, K, loc, atStart, fuel) ==
          \* (only the literal `await true`: polling a real condition is a computed test, like an `if`)
          ELSE IF c = "t" THEN Run(D, rest, loc, atStart /\ f.c.k = "true", fuel - 1)
          ELSE [K |-> K, loc |-> loc]
+    [] f.k = "wait" ->
+         IF f.left = 1 THEN Run(D, rest, loc, FALSE, fuel - 1)
+         ELSE [K |-> <<[f EXCEPT !.left = @ - 1]>> \o rest, loc |-> loc]
     [] f.k = "halt" -> [K |-> K, loc |-> loc]
 
 (* ------------------------------------------------------------------ *)
